@@ -1,7 +1,7 @@
 (* run_case: the single entry point of the extracted model.  One case term in, one observation
    term out; the same function is evaluated with vm_compute for the extraction cross-check. *)
 From Coq Require Import String.
-From AvroV Require Import Base Varint Schema Bytes Names Codec Validate Rabin SingleObject Container Sexp.
+From AvroV Require Import Base Varint Schema Bytes Names Codec Validate Rabin SingleObject Container Sink Sexp.
 Local Open Scope string_scope.
 
 Definition run_fuel : nat := 300.
@@ -189,6 +189,23 @@ Definition run_case (x : sexp) : sexp :=
             end
           | _ => obs_err
           end
+        | _, _ => obs_bad
+        end
+      | _ => obs_bad
+      end
+    else if op =? "sinkmodel" then
+      (* (sinkmodel (pieces #p...) (script default (a n)|(f)|(i) ...)) *)
+      match args with
+      | [L (Sym _ :: ps); L (Sym _ :: Num dflt :: bs)] =>
+        match mapM hex_of_sexp ps,
+              mapM (fun b => match b with
+                             | L [Sym t; Num n] => if t =? "a" then Some (Accept (Z.to_N n)) else None
+                             | L [Sym t] => if t =? "f" then Some Fail
+                                            else if t =? "i" then Some Interrupted else None
+                             | _ => None end) bs with
+        | Some pieces, Some script =>
+          let '(okk, s') := write_pieces (mkSink script (Z.to_N dflt) [] 0) pieces in
+          L [Sym (if okk then "ok" else "err"); Hex (sk_data s'); Num (Z.of_N (sk_calls s'))]
         | _, _ => obs_bad
         end
       | _ => obs_bad
